@@ -71,6 +71,28 @@ class Builder:
     c.tied = ep
     s.nconst.setdefault(ep.full, set()).add(c.value)
 
+  def add_const_ties(s):
+    """separate statements of ONE component tie several signals (equal and different widths; whole signals, slices, fields;
+    own signals and child ports) to the SAME constant value: every statement has its own constant, the nets stay apart"""
+    rng, d = s.rng, s.d
+    host = rng.choice(sorted(d.insts))
+    value = rng.choice([0, 0, 1, 1, 3, 7])
+    n = 0
+    for _ in range(rng.choice([2, 2, 3, 4])):
+      T = ('b', rng.choice([1, 3, 4, 4, 8, 8, 16]))
+      c = ConstEP(T, value % (1 << T[1]), host)
+      opts = s.reader_options(c); rng.shuffle(opts)
+      for x, h in opts[:8]:
+        eps = [e for e in fits(x, T, rng) if s.free(e) and c.value not in s.nconst.get(e.full, ())]
+        if not eps: continue
+        v = rng.choice(eps)
+        s.tie(c, v); s.drv[v.sig.root] = s.drv.get(v.sig.root, 0) | v.mask
+        d.stmts[h].append(('conn', v, c) if rng.random() < 0.5 else ('conn', c, v))
+        s.writer_eps.append(c); s.reader_eps.append(v); n += 1
+        break
+    if n >= 2: d.features.add('const-ties')
+    return n
+
   def wrap_helpers(s, host, lines):
     """move some of the write statements of an update block into @s.func helpers, 1..3 calls deep (helpers calling helpers);
     returns the lines that stay in the block.  The innermost helper always holds at least one write."""
@@ -287,6 +309,8 @@ def gen_design(rng, name, mode):
     for _ in range(40):
       if n >= want: break
       n += b.add_net(overlap_readers=(0.08 <= r < 0.14))
+    if rng.random() < 0.4:
+      for _ in range(rng.choice([1, 1, 2])): b.add_const_ties()
     if mode == 'mutated':
       add_random_connects(rng, d, b, rng.choice([1, 1, 2]))
   d.builder = b
@@ -385,11 +409,18 @@ def simulate(ctx, d, top, nets, src, tag):
       except Exception as e:
         ctx.violation('C08:harness-simvalue', f'cannot read simulated value: {e!r}', {'design_source': src}, found_input=False); return True
       if bad:
-        key = 'C08:same-net-overlapping-slices' if 'same-net-overlap' in d.features else feature_key(d, src, 'net-value')
+        key = 'C08:same-net-overlapping-slices' if overlapping_readers(d, w, ms) else feature_key(d, src, 'net-value')
         ctx.violation(key, f'design {d.name} ({tag}): after sim_eval_combinational members of the net written by {w} differ from the writer: writer={wv:#x}, members={[(m, hex(v)) for m, v in bad[:4]]} (inputs {vals})',
                       {'design_source': src, 'net_writer': w, 'net_members': ms, 'writer_value': wv, 'differing_members': bad, 'inputs': vals})
         return True
   return True
+
+def overlapping_readers(d, w, ms):
+  """two members of one net, neither of them the writer, that denote overlapping but different bit ranges"""
+  es = [d.ep_by_name.get(m) for m in ms if m != w]
+  es = [e for e in es if e is not None and not isinstance(e, ConstEP)]
+  return any(a is not b and a.sig.root == b.sig.root and a.lo < b.hi and b.lo < a.hi and (a.lo, a.hi) != (b.lo, b.hi)
+             for a in es for b in es)
 
 def feature_key(d, src, kind, detail=''):
   """seed-stable keys: the one understood root cause (a block writing a struct and one of its fields makes the result of
@@ -498,7 +529,7 @@ def run(ctx):
   bad2 = ctx.coq_bad_indices('dis', 'Base.Prelude Sched.Accept Elab.Nets Elab.Writers', DEFS, 'ctype', cases, 'dis_ok c', shard=60)
   for i in bad2[:12]:
     d, src, obs, edges, v = meta[i]
-    key = 'C08:same-net-overlapping-slices' if 'same-net-overlap' in d.features else f'C08:net-overlap:{d.mode}'
+    key = 'C08:same-net-overlapping-slices' if any(overlapping_readers(d, w, ms) for w, ms in obs) else f'C08:net-overlap:{d.mode}'
     ctx.violation(key, f'design {d.name}: elaboration accepted a net in which two non-writer members overlap (one net drives a bit twice); nets {[o for o in obs if len(o[1]) > 2][:4]}',
                   {'design_source': src, 'observed': obs})
   ctx.extra.update({'designs': ndes, 'designs_elaborating': nok, 'acceptor_cases': len(cases), 'hashseed_cases': len(worker_cases)})
